@@ -160,6 +160,18 @@ func (r *Run) event() {
 	}
 }
 
+// yield: the running goroutine goes to the back of the run queue (used by the "wyield" policies after every Write
+// on the output: a cooperative stand-in for preemption between two printing goroutines).
+func (r *Run) yield() {
+	cs := r.conc()
+	if len(cs.runq) == 0 {
+		return
+	}
+	me := cs.cur
+	cs.runq = append(cs.runq, me)
+	r.schedule(me)
+}
+
 func (r *Run) block(why string) {
 	cs := r.conc()
 	me := cs.cur
